@@ -1313,7 +1313,9 @@ func (fv *FuncVerifier) checkPost(st *State, p token.Pos) {
 	}
 	for i, c := range fv.spec.Ensures {
 		t := fv.evalWrapper(fv.spec.PkgPath, c.Wrapper, vals, st, fv.entry)
+		fv.curClause = c
 		fv.oblige(st, "post", fmt.Sprintf("%d:ret%d", i, ret), t, p, c.Text)
+		fv.curClause = nil
 	}
 	fv.checkFrame(st, p, ret)
 	if os_cover {
